@@ -28,6 +28,7 @@ except Exception:  # pragma: no cover  (plain /venv python without crosshair: na
         return x
 
 LOG = []          # one record per explored path
+HIST = []         # concrete replayable args of completed paths, when the harness can reconstruct them (rec['replay_args'])
 CUR = {'kinds': []}   # realised abstract symbols pulled by lark on the current path (never forces realisation itself)
 FAILS = []        # records of failing paths (with realised args)
 TWIN = os.environ.get('VF_TWIN') == '1'
@@ -133,6 +134,8 @@ def run_path(body, args, corner=None):
         FAILS.append(rec)
     else:
         _finish(rec)
+    if rec.get('replay_args') is not None:
+        HIST.append(rec['replay_args'])
     return ok
 
 
